@@ -119,6 +119,15 @@ def _(value: Flag):
     return " | ".join(f"{name}.{flag.name}" for flag in type(value) if flag in value)
 
 
+@customize_repr
+def _(value: float):
+    result = real_repr(value)
+    if result in ("inf", "-inf"):
+        # the plain repr is a name, not an expression which evaluates to the value
+        return f'float("{result}")'
+    return result
+
+
 def sort_set_values(set_values):
     is_sorted = False
     try:
